@@ -35,7 +35,7 @@
    see docs/C03.md. *)
 From Coq Require Import List ZArith Bool Arith.
 From SC Require Import Base.Res Base.PyList Inst.Heap Inst.ClassTable Inst.Model Inst.TypeProofs Inst.TypeCopy
-  Inst.OwnProofs Inst.OwnProofs2 Inst.OwnProofs3 Inst.OwnColl Inst.OwnCopy Inst.OwnCow Inst.OwnAll.
+  Inst.OwnProofs Inst.OwnProofs2 Inst.OwnProofs3 Inst.OwnColl Inst.OwnCopy Inst.OwnCow Inst.OwnInit Inst.OwnAll.
 Import ListNotations.
 Open Scope nat_scope.
 
@@ -444,38 +444,81 @@ Theorem C03_without_item_copy_on_write :
     Inv ct (heap (snd (run_helper ct l (HWithoutItem a) hh s))).
 Proof. exact without_item_cow. Qed.
 
-(* the combined statement, with the operations covered as a computable predicate (owned_opa_b,
-   coq/Inst/OwnAll.v): obj.a = v and with_<a>(v, _inplace=True) on leaf attributes (scalar or
-   List/Set/Dict of scalars, no preparer) with a fresh argument; with_<a>(v) copy-on-write on
-   flat receivers; with_<item> / without_<item> in place and copy-on-write with any arguments;
-   copy.deepcopy of flat values; the caller building a container of scalars.
-   PARTIAL: the full statement quantifies over every operation (constructor, del,
-   update_/transform_/reset_, keyword attributes) and every flat table (preparers,
-   invalidated_by, nested spec classes / Any as elements, do_not_copy). *)
+(* ---------------- 8. constructor, del, reset_<a> (OwnInit.v) ----------------
+   ctor_class: a flat class with its own metadata, no spec parent, no __post_init__, leaf
+   attributes whose default is a non-reference or a factory of scalars.  The keyword values are
+   copied by InitMethod (protect_via_deepcopy), so they need not be fresh: it is enough that
+   they are flat (a non-reference, or a container of non-references). *)
+Theorem C03_constructor_preserves_owned :
+  forall ct, flat_table ct -> no_inval_table ct -> no_reserved_names ct ->
+  forall roots c k kw s,
+    ctor_class ct c k -> Inv ct (heap s) -> kw_flat kw (heap s) ->
+    Inv ct (heap (snd (step ct roots (OpConstruct c None kw) s))).
+Proof. exact step_construct. Qed.
+
+Theorem C03_del_preserves_owned :
+  forall ct, flat_table ct -> no_inval_table ct -> forall roots x a s,
+    Inv ct (heap s) ->
+    (forall l, nth x roots VNone = VRef l -> exists cl k, is_inst l cl (heap s) /\ lookup_cls ct cl = Some k /\
+       forall sp, lookup_attr k a = Some sp -> leaf_attr sp /\ default_ok k sp) ->
+    Inv ct (heap (snd (step ct roots (OpDelAttr x a) s))).
+Proof. exact step_delattr. Qed.
+
+Theorem C03_reset_inplace_preserves_owned :
+  forall ct, flat_table ct -> no_inval_table ct -> forall roots x a hh s,
+    h_inplace hh = true -> Inv ct (heap s) ->
+    (forall l, nth x roots VNone = VRef l -> exists cl k, is_inst l cl (heap s) /\ lookup_cls ct cl = Some k /\
+       forall sp, lookup_attr k a = Some sp -> leaf_attr sp /\ default_ok k sp) ->
+    Inv ct (heap (snd (step ct roots (OpHelper x (HReset a) hh) s))).
+Proof. exact step_reset_inplace. Qed.
+
+(* the combined statement, with the operations covered as a computable predicate (owned_opf_b,
+   coq/Inst/OwnAll.v).  Leaf attribute: annotation scalar or List/Set/Dict of scalars, no
+   preparer.  Covered: the constructor of a flat class (keyword values flat); obj.a = v and
+   with_<a>(v, _inplace=True) with a fresh argument; with_<a>(v) copy-on-write on flat
+   receivers; with_<item> / without_<item> in place and copy-on-write with any arguments;
+   del obj.a and reset_<a>(_inplace=True); copy.deepcopy of flat values; the caller building a
+   container of scalars.
+   PARTIAL: the full statement quantifies over every operation (update_/transform_ helpers,
+   reset / reset_<a> copy-on-write, keyword attributes, positional constructor argument) and
+   every flat table (preparers, invalidated_by, nested spec classes / Any as elements,
+   do_not_copy, inheritance, __post_init__). *)
 Theorem C03_step_preserves_owned_partial :
   forall ct roots o s,
     flat_table ct -> no_inval_b ct = true -> no_reserved_b ct = true ->
-    owned_opa_b ct (heap s) roots o = true ->
+    owned_opf_b ct (heap s) roots o = true ->
     TypeInv ct s -> Owned ct (heap s) ->
     TypeInv ct (snd (step ct roots o s)) /\ Owned ct (heap (snd (step ct roots o s))).
-Proof. exact step_preserves_owned_all. Qed.
+Proof. exact step_preserves_owned_final. Qed.
 
-(* non-vacuity: a table with an int, a List[int], a List[str], a Set[int] and a Dict[str,int]
-   attribute; the guards hold; conforming and ill-typed arguments; element insertion and
-   removal in the three families, in place and copy-on-write; deepcopy *)
+(* non-vacuity: a table with an int, a List[int], a List[str], a Set[int], a Dict[str,int]
+   attribute and a List[int] attribute with default_factory; the guards hold; conforming and
+   ill-typed arguments; construction; element insertion and removal in the three families, in
+   place and copy-on-write; del / reset; deepcopy *)
 Definition exA70 := mkattr 70 (TSet TInt) VMissing None 1 true false None None [].
 Definition exA80 := mkattr 80 (TDict TStr TInt) VMissing None 1 true false None None [].
-Definition exCT2 : ctable := [mkcls 1 [exA1; exA50; exA60; exA70; exA80] false false None [1] 1 [] None None].
+Definition exA90 := mkattr 90 (TList TInt) VMissing (Some (FacList [VInt 1%Z])) 1 true false None None [].
+Definition exCT2 : ctable :=
+  [mkcls 1 [exA1; exA50; exA60; exA70; exA80; exA90] false false None [1] 1 [] None None].
 Definition exH2 : list obj :=
   [OInst 1 [(1, VInt 3%Z); (50, VRef 1); (70, VRef 2); (80, VRef 3)];
    OList [VInt 1%Z]; OSet [VInt 4%Z]; ODict [(VStr 1%Z, VInt 2%Z)];
    OList [VInt 5%Z]; OList [VStr 5%Z]; OSet [VInt 6%Z]; ODict [(VInt 1%Z, VInt 2%Z)]].
 Definition exRun2 (o : op) := step exCT2 [VRef 0] o (mkst exH2 0 None).
 Definition exGood (o : op) : bool :=
-  owned_opa_b exCT2 exH2 [VRef 0] o && owned_b exCT2 (heap (snd (exRun2 o))) && ti_b exCT2 (heap (snd (exRun2 o))).
+  owned_opf_b exCT2 exH2 [VRef 0] o && owned_b exCT2 (heap (snd (exRun2 o))) && ti_b exCT2 (heap (snd (exRun2 o))).
 
 Example C03_owned_guards_hold :
   no_inval_b exCT2 = true /\ no_reserved_b exCT2 = true /\ owned_b exCT2 exH2 = true /\ ti_b exCT2 exH2 = true /\
+  (* construction: the list argument is copied (cell 9), the factory default is built (cell 10) *)
+  exGood (OpConstruct 1 None [(1, VInt 2%Z); (50, VRef 4)]) = true /\
+  fst (exRun2 (OpConstruct 1 None [(1, VInt 2%Z); (50, VRef 4)])) = Ok (VRef 8) /\
+  nth_error (heap (snd (exRun2 (OpConstruct 1 None [(1, VInt 2%Z); (50, VRef 4)])))) 8
+    = Some (OInst 1 [(1, VInt 2%Z); (50, VRef 9); (90, VRef 10)]) /\
+  exGood (OpConstruct 1 None [(50, VRef 5)]) = true /\
+  fst (exRun2 (OpConstruct 1 None [(50, VRef 5)])) = Err ValueErr /\
+  exGood (OpConstruct 1 None [(1, VStr 2%Z)]) = true /\
+  fst (exRun2 (OpConstruct 1 None [(1, VStr 2%Z)])) = Err TypeErr /\
   (* assignments: conforming list, ill-typed list (rejected), set, ill-keyed dict (rejected), scalars *)
   exGood (OpSetAttr 0 50 (VRef 4)) = true /\ fst (exRun2 (OpSetAttr 0 50 (VRef 4))) = Ok VNone /\
   exGood (OpSetAttr 0 50 (VRef 5)) = true /\ fst (exRun2 (OpSetAttr 0 50 (VRef 5))) = Err ValueErr /\
@@ -484,7 +527,7 @@ Example C03_owned_guards_hold :
   exGood (OpSetAttr 0 1 (VInt 9%Z)) = true /\ fst (exRun2 (OpSetAttr 0 1 (VInt 9%Z))) = Ok VNone /\
   exGood (OpSetAttr 0 1 (VStr 9%Z)) = true /\ fst (exRun2 (OpSetAttr 0 1 (VStr 9%Z))) = Err TypeErr /\
   exGood (OpHelper 0 (HWith 50) (exArgs [VRef 4] true)) = true /\
-  (* copy-on-write with_<a>: the receiver is copied (cells 8..12), the argument goes into the copy *)
+  (* copy-on-write with_<a>: the receiver is copied (cells 8..11), the argument goes into the copy *)
   exGood (OpHelper 0 (HWith 50) (exArgs [VRef 4] false)) = true /\
   fst (exRun2 (OpHelper 0 (HWith 50) (exArgs [VRef 4] false))) = Ok (VRef 8) /\
   nth_error (heap (snd (exRun2 (OpHelper 0 (HWith 50) (exArgs [VRef 4] false))))) 8
@@ -499,6 +542,7 @@ Example C03_owned_guards_hold :
   exGood (OpHelper 0 (HWithItem 60) (exArgs [VStr 7%Z] true)) = true /\
   exGood (OpHelper 0 (HWithItem 70) (exArgs [VInt 9%Z] true)) = true /\
   exGood (OpHelper 0 (HWithItem 80) (exArgs [VStr 5%Z; VInt 6%Z] true)) = true /\
+  exGood (OpHelper 0 (HWithItem 90) (exArgs [VInt 7%Z] true)) = true /\
   exGood (OpHelper 0 (HWithoutItem 50) (exArgs [VInt 1%Z] true)) = true /\
   exGood (OpHelper 0 (HWithoutItem 70) (exArgs [VInt 4%Z] true)) = true /\
   exGood (OpHelper 0 (HWithoutItem 80) (exArgs [VStr 1%Z] true)) = true /\
@@ -513,9 +557,17 @@ Example C03_owned_guards_hold :
   exGood (OpHelper 0 (HWithoutItem 50) (exArgs [VInt 1%Z] false)) = true /\
   exGood (OpHelper 0 (HWithoutItem 70) (exArgs [VInt 4%Z] false)) = true /\
   exGood (OpHelper 0 (HWithoutItem 80) (exArgs [VStr 1%Z] false)) = true /\
+  (* del: the attribute without default is removed, the one with a factory is rebuilt *)
+  exGood (OpDelAttr 0 50) = true /\
+  nth_error (heap (snd (exRun2 (OpDelAttr 0 50)))) 0
+    = Some (OInst 1 [(1, VInt 3%Z); (70, VRef 2); (80, VRef 3)]) /\
+  exGood (OpDelAttr 0 90) = true /\
+  nth_error (heap (snd (exRun2 (OpDelAttr 0 90)))) 0
+    = Some (OInst 1 [(1, VInt 3%Z); (50, VRef 1); (70, VRef 2); (80, VRef 3); (90, VRef 8)]) /\
+  exGood (OpHelper 0 (HReset 90) (exArgs [] true)) = true /\
   exGood (OpDeepCopy 0) = true /\
   (* the aliasing assignment of the counterexample is NOT covered: the argument is referenced *)
-  owned_opa_b exCT [OInst 1 [(1, VInt 3%Z); (50, VRef 1)]; OList []] [VRef 0] (OpSetAttr 0 60 (VRef 1)) = false.
+  owned_opf_b exCT [OInst 1 [(1, VInt 3%Z); (50, VRef 1)]; OList []] [VRef 0] (OpSetAttr 0 60 (VRef 1)) = false.
 Proof. vm_compute. repeat split. Qed.
 
 Print Assumptions C03_checked_before_stored.
@@ -561,5 +613,8 @@ Print Assumptions C03_mutate_attr_copy_on_write.
 Print Assumptions C03_with_copy_on_write.
 Print Assumptions C03_with_item_copy_on_write.
 Print Assumptions C03_without_item_copy_on_write.
+Print Assumptions C03_constructor_preserves_owned.
+Print Assumptions C03_del_preserves_owned.
+Print Assumptions C03_reset_inplace_preserves_owned.
 Print Assumptions C03_step_preserves_owned_partial.
 Print Assumptions C03_owned_guards_hold.
